@@ -370,7 +370,11 @@ def complexCase : Desc → Val → Step
     match E.fn f v with
     | .ok w => .accept w
     | .error _ => .next
-  -- case 19, 4151-4219
+  -- case 19, 4151-4219.  NOTE: `default_value_for(trait, obj, name)` is called with the
+  -- COMPOUND trait here, so in adapt mode 2 the C code returns the enclosing trait's
+  -- default, not the member's (finding F49).  The model keeps the member's own `dflt`
+  -- (the two coincide whenever the compound's default is the member's, e.g. None);
+  -- adapt='default' members of compounds are therefore not generated (C03 ASSUMPTIONS).
   | .adapt cls mode an dflt, v =>
     if v.isNone then (if an then .accept v else .next)
     else if mode = 0 then (if Val.isInst cls v then .accept v else .next)
